@@ -62,3 +62,47 @@ Section Revert.
         destruct (count_two y _ k2 v2 k v W C2 C Y2 Yv Cy) as [E2 _]. congruence.
   Qed.
 End Revert.
+
+(* The taxa orientation: flat_cluster(..., taxa) replaces every member index by its name and keeps the keys.  With
+   pairwise distinct names (an injective naming of the items) the relabelled clusters are a partition of the names:
+   the name of every item below n occurs exactly once, and two names share a cluster iff their items do. *)
+Section Taxa.
+  Variable T : Type.
+  Variable T_dec : forall a b : T, {a = b} + {a <> b}.
+  Variable name : nat -> T.
+  Hypothesis name_inj : forall x y, name x = name y -> x = y.
+
+  Definition relabel (cl : clusters) : list (nat * list T) := map (fun c => (fst c, map name (snd c))) cl.
+
+  Definition count_name (t : T) (rl : list (nat * list T)) : nat :=
+    list_sum (map (fun c => count_occ T_dec (snd c) t) rl).
+
+  Lemma count_name_relabel x cl : count_name (name x) (relabel cl) = count x cl.
+  Proof.
+    unfold count_name, relabel, count. rewrite map_map. f_equal. apply map_ext. intros [k v]. cbn [fst snd].
+    symmetry. apply count_occ_map. exact name_inj.
+  Qed.
+
+  Variable V : Type.
+  Variable leb : V -> V -> bool.
+  Variable link : list V -> V.
+  Variable d : nat -> nat -> V.
+
+  Theorem flat_taxa_partition (n : nat) (thr : V) :
+    let cl := flat leb link d n thr in
+    (forall x, count_name (name x) (relabel cl) = if x <? n then 1 else 0) /\
+    map fst (relabel cl) = map fst cl /\
+    (forall x y, (exists k v, In (k, v) (relabel cl) /\ In (name x) v /\ In (name y) v) <-> together cl x y).
+  Proof.
+    cbv zeta. split; [|split].
+    - intros x. rewrite count_name_relabel. apply flat_partition.
+    - unfold relabel. rewrite map_map. reflexivity.
+    - intros x y. unfold relabel, together. split.
+      + intros [k [v [H [Hx Hy]]]]. rewrite in_map_iff in H. destruct H as [[k0 v0] [E H]].
+        cbn [fst snd] in E. injection E as Ek Ev. subst k v. exists k0, v0. split; [exact H|].
+        rewrite in_map_iff in Hx, Hy. destruct Hx as [x' [Ex Hx]], Hy as [y' [Ey Hy]].
+        apply name_inj in Ex, Ey. subst. auto.
+      + intros [k [v [H [Hx Hy]]]]. exists k, (map name v). split; [|split; apply in_map; assumption].
+        rewrite in_map_iff. exists (k, v). auto.
+  Qed.
+End Taxa.
